@@ -39,10 +39,17 @@ Fixpoint diff_from (c : cfg) (s : state) (l : list tstep) (i : N) : N :=
   end.
 
 (* a wrong observation right after deployment is reported as a disagreement at call 1 *)
+(* a deployment whose constructor must refuse its arguments: the trace consists of the marker
+   observation (o_trap = true) and no calls *)
+Definition dead_trace (t : trace) : bool :=
+  o_trap (t_obs0 t) && match t_steps t with [] => true | _ => false end.
+
 Definition diff (t : trace) : N :=
-  if obs_eqb (t_obs0 t) (observe (t_cfg t) (init (t_cfg t)))
-  then diff_from (t_cfg t) (init (t_cfg t)) (t_steps t) 0%N
-  else 1%N.
+  if ctor_ok (t_cfg t) then
+    if obs_eqb (t_obs0 t) (observe (t_cfg t) (init (t_cfg t)))
+    then diff_from (t_cfg t) (init (t_cfg t)) (t_steps t) 0%N
+    else 1%N
+  else if dead_trace t then 0%N else 1%N.
 
 
 (* ------------------------------------------------------------------ *)
@@ -115,19 +122,48 @@ Definition m_migrate (h : hist) (o : op) (ok : bool) : bool :=
   | _ => true
   end.
 
-(* exactness: the call succeeds iff its gates are open and the fungible core / the
-   authorisation rules have no objection - so a gate that fails to re-open is caught too *)
-Definition m_exact (c : cfg) (h : hist) (p : obs) (cl : call) (ok : bool) : bool :=
-  Bool.eqb ok (expected_ok c h (view_obs p) cl).
+(* "works again": where the text promises that a re-opened gate lets calls through, the outcome must
+   be exactly what the fungible core / authorisation rule alone decide ([expected_ok]):
+   - a pausable entry point while the contract is not paused;
+   - a gated entry point of a listed token when every party involved, the spender included, is open
+     (nothing is demanded when only the spender is closed: the text does not say whether a closed
+     spender may act; the code lets it, the diff pins that);
+   - migrate by the authorised owner while an upgrade is pending ("can be completed").
+   Anything stricter than the text elsewhere is left to the model/implementation diff. *)
+Definition spender_of (o : op) : list addr :=
+  match o with TransferFrom sp _ _ _ | BurnFrom sp _ _ => [sp] | _ => [] end.
+Definition m_reopen (c : cfg) (h : hist) (p : obs) (cl : call) (ok : bool) : bool :=
+  let o := fst cl in
+  let exact := Bool.eqb ok (expected_ok c h (view_obs p) cl) in
+  implies (is_paus (knd c) && negb (h_paused h) && pausable_op o) exact
+  && implies (is_allow (knd c) && negb (match vetted o with [] => true | _ => false end)
+              && forallb (h_listed h) (vetted o ++ spender_of o)) exact
+  && implies (is_block (knd c) && negb (match vetted o with [] => true | _ => false end)
+              && forallb (fun a => negb (h_listed h a)) (vetted o ++ spender_of o)) exact
+  && match o with
+     | Migrate _ operator =>
+         implies ((kind_eqb (knd c) KUpgV1 || kind_eqb (knd c) KUpgV2) && h_armed h
+                  && has_auth (snd cl) operator && N.eqb operator (owner c)) ok
+     | _ => true
+     end.
+
+(* shape of an observation: one entry per address of the universe *)
+Definition m_shape (c : cfg) (q : obs) : bool :=
+  (length (o_bal q) =? na c)%nat && (length (o_alw q) =? na c)%nat
+  && forallb (fun r => (length r =? na c)%nat) (o_alw q)
+  && (length (o_list q) =? na c)%nat && (length (o_mgr q) =? na c)%nat.
+Definition all_read (q : obs) : bool :=
+  forallb (fun e => match e with Some _ => true | None => false end) (o_list q).
 
 (* effects of a successful call on supply, balances, allowances, cap, migration data *)
-Definition m_effects (c : cfg) (p : obs) (o : op) (ok : bool) (q : obs) : bool :=
+Definition m_effects (c : cfg) (h : hist) (p : obs) (o : op) (ok : bool) (q : obs) : bool :=
   implies ok
     ((o_supply q =? exp_supply (view_obs p) o)
      && forallb (fun x => gb q x =? exp_bal (view_obs p) o x) (universe c)
      && forallb (fun x => forallb (fun y =>
             match o with
-            | Advance _ => (ga q x y =? ga p x y) || (ga q x y =? 0)      (* an allowance may expire *)
+            | Advance n =>                (* an allowance lapses exactly when its live_until_ledger is passed *)
+                ga q x y =? (if h_lu h x y <? h_now h + n then 0 else ga p x y)
             | _ => ga q x y =? exp_alw (view_obs p) o x y
             end) (universe c)) (universe c)
      && optZ_eqb (o_cap q) (exp_cap (view_obs p) o)
@@ -142,7 +178,7 @@ Definition mon_step (c : cfg) (h : hist) (p : obs) (st : tstep) : bool :=
   && m_allow c h o ok && m_block c h o ok
   && m_getters c h' q
   && m_cap c p o ok q && m_migrate h o ok
-  && m_exact c h p cl ok && m_effects c p o ok q.
+  && m_reopen c h p cl ok && m_effects c h p o ok q && m_shape c q.
 
 Definition hist_next (h : hist) (st : tstep) : hist :=
   let '(cl, ok, _) := st in if ok then hist_upd h (fst cl) else h.
@@ -156,14 +192,34 @@ Fixpoint mon_from (c : cfg) (h : hist) (p : obs) (l : list tstep) (i : N) : N :=
       else N.succ i
   end.
 
-(* what must hold right after deployment: gates in their constructor state *)
-Definition mon_init (c : cfg) (p : obs) : bool := m_getters c (hist0 c) p.
+(* what must hold right after deployment: gates in their constructor state (cap = the configured
+   cap, pause off, lists as the constructor leaves them, no pending migration, the manager argument
+   holds the role), the constructor's mint and nothing else, every list entry read *)
+Definition init_supply_of (c : cfg) : Z :=
+  match knd c with KPaus | KAllowEx | KBlockEx => init_supply c | _ => 0 end.
+Definition mon_init (c : cfg) (p : obs) : bool :=
+  m_getters c (hist0 c) p && m_shape c p && all_read p
+  && optZ_eqb (o_cap p) (match knd c with KCapEx => Some (init_cap c) | _ => None end)
+  && (o_supply p =? init_supply_of c)
+  && forallb (fun x => gb p x =? (if N.eqb x (owner c) then init_supply_of c else 0)) (universe c)
+  && forallb (fun x => forallb (fun y => ga p x y =? 0) (universe c)) (universe c)
+  && optZ_eqb (o_data p) None.
 
-(* a wrong gate state right after deployment is reported at call 1 *)
+Fixpoint last_obs_from (p : obs) (l : list tstep) : obs :=
+  match l with [] => p | st :: r => last_obs_from (snd st) r end.
+Definition last_obs (t : trace) : obs := last_obs_from (t_obs0 t) (t_steps t).
+
+(* a wrong state right after deployment is reported at call 1; list entries still unread at the
+   end of the trace at the last call *)
 Definition mon (t : trace) : N :=
-  if mon_init (t_cfg t) (t_obs0 t)
-  then mon_from (t_cfg t) (hist0 (t_cfg t)) (t_obs0 t) (t_steps t) 0%N
-  else 1%N.
+  if ctor_ok (t_cfg t) then
+    if mon_init (t_cfg t) (t_obs0 t)
+    then match mon_from (t_cfg t) (hist0 (t_cfg t)) (t_obs0 t) (t_steps t) 0%N with
+         | 0%N => if all_read (last_obs t) then 0%N else N.max 1 (N.of_nat (length (t_steps t)))
+         | k => k
+         end
+    else 1%N
+  else if dead_trace t then 0%N else 1%N.
 
 Definition check (t : trace) : verdict := (diff t, mon t, 0%N).
 Definition check_all (ts : list trace) : list verdict := map check ts.
@@ -179,13 +235,13 @@ Definition observe_model (c : cfg) (cs : list call) : trace :=
 
 (* diagnostics: the value of every named clause at the first step the monitor rejects
    (order: no-effect-on-failure, paused-blocks, alternation, allow, block, getters-follow-history,
-   cap, migrate, exactness, effects); [] if the monitor accepts *)
+   cap, migrate, works-again, effects, shape); [] if the monitor accepts *)
 Definition clause_vector (c : cfg) (h : hist) (p : obs) (st : tstep) : list bool :=
   let '(cl, ok, q) := st in
   let o := fst cl in
   [ m_noeffect p ok q; m_paused_blocks c h o ok; m_alternation h o ok; m_allow c h o ok; m_block c h o ok;
     m_getters c (if ok then hist_upd h o else h) q; m_cap c p o ok q; m_migrate h o ok;
-    m_exact c h p cl ok; m_effects c p o ok q ].
+    m_reopen c h p cl ok; m_effects c h p o ok q; m_shape c q ].
 Fixpoint first_rejection (c : cfg) (h : hist) (p : obs) (l : list tstep) : list bool :=
   match l with
   | [] => []
